@@ -159,7 +159,7 @@ func routers(proto string, retryOn bool) func(cluster string) []v2.Router {
 	}
 }
 
-var letterClass = map[byte]string{'Z': "slow-hijack", 'H': "hijack", 'B': "hijack-with-body", 'D': "direct-response", 'T': "terminate", 'M': "re-match", 'R': "re-choose"}
+var letterClass = map[byte]string{'Z': "slow-hijack", 'H': "hijack", 'K': "hijack-but-continue", 'B': "hijack-with-body", 'D': "direct-response", 'T': "terminate", 'M': "re-match", 'R': "re-choose"}
 
 func record(c *chainCase, partName string) {
 	nonTriv := false
@@ -264,7 +264,7 @@ func runCase(t ev.TB, c *chainCase, partName string) {
 			cl := &obs[r].Calls[i]
 			last, lastSig = describe(cl), map[string]string{"r": "receive-filter", "s": "send-filter", "lb": "host-selection"}[cl.Kind]
 			if cl.Kind == "r" {
-				if honoured(cl.Verdict[0], cl.Seen) || cl.Verdict[0] == 'H' || cl.Verdict[0] == 'B' || cl.Verdict[0] == 'D' {
+				if honoured(cl.Verdict[0], cl.Seen) || cl.Verdict[0] == 'H' || cl.Verdict[0] == 'K' || cl.Verdict[0] == 'B' || cl.Verdict[0] == 'D' {
 					passes++
 				}
 				last += " returned " + verdictWord(cl.Verdict)
@@ -762,6 +762,8 @@ func verdictWord(v string) string {
 		return "slow-hijack"
 	case 'H':
 		return "hijack"
+	case 'K':
+		return "hijack-but-continue"
 	case 'B':
 		return "hijack-with-body"
 	case 'D':
